@@ -25,7 +25,9 @@ def edit_module(program, modname, editor):
     mod = program.modules.get(modname)
     if mod is None:
         return None
-    tree = copy.deepcopy(mod.tree)
+    # the editors are written against the source AS IT IS WRITTEN, not against
+    # the canonical normal form the rules see
+    tree = ast.parse(mod.src)
     try:
         applied = editor(tree)
     except (LookupError, AttributeError, TypeError, ValueError):
